@@ -17,6 +17,28 @@ pub(crate) fn to_lower_snake_case(value: &str) -> String {
     result
 }
 
+/// The name conversion that `#[derive(TrustfallEnumVertex)]` applies to a variant name
+/// when it generates the variant's `as_<name>()` conversion method.
+///
+/// Unlike [`to_lower_snake_case`], it separates consecutive uppercase letters:
+/// `UserID` becomes `user_i_d`.
+pub(crate) fn derived_conversion_fn_suffix(variant_name: &str) -> String {
+    let mut result = String::with_capacity(variant_name.len());
+    let mut last = '_';
+    for c in variant_name.chars() {
+        if c.is_uppercase() {
+            if last != '_' {
+                result.push('_');
+            }
+            result.extend(c.to_lowercase());
+        } else {
+            result.push(c);
+        }
+        last = c;
+    }
+    result
+}
+
 pub(crate) fn upper_case_variant_name(value: &str) -> String {
     let mut chars = value.chars();
     let first_char = chars.next().expect("unexpectedly got an empty string").to_ascii_uppercase();
